@@ -157,9 +157,13 @@ def drop_package(alias):
 
 
 def resolve(pkg, path):
+    import importlib
     obj = pkg
     for part in path.split("."):
-        obj = getattr(obj, part)
+        try:
+            obj = getattr(obj, part)
+        except AttributeError:
+            obj = importlib.import_module(obj.__name__ + "." + part)   # a submodule the package does not import by itself
     return obj
 
 
